@@ -61,6 +61,11 @@ def serialise(items, fmt):
             sp = x["sp"]
             if sp == "dec":
                 out.append("&#%d;" % x["c"])
+            elif sp == "dec0":
+                # zero-padded decimal (&#038; is the ampersand, as WordPress and others write it)
+                out.append("&#0%d;" % x["c"] if x["c"] > 99 else "&#%03d;" % x["c"])
+            elif sp == "hexlc":
+                out.append("&#x%x;" % x["c"])
             elif sp == "hex":
                 out.append("&#x%X;" % x["c"])
             else:
@@ -84,7 +89,8 @@ def serialise(items, fmt):
         elif t == "voice":
             if fmt != "WebVTT":
                 return None
-            out.append("<v %s>" % "".join(chr(c) for c in x["s"]))
+            # the annotation is text too: & < > in a speaker's name are written as references
+            out.append("<v %s>" % "".join(_esc(c, fmt) if c in (38, 60, 62) else chr(c) for c in x["s"]))
         elif t == "tag":
             k, op = x["kind"], x["open"]
             if fmt == "WebVTT":
@@ -182,6 +188,28 @@ def inputs(ctx):
         for fmt in FORMATS:
             items = chs(text)
             if serialise(items, fmt) is not None and _admissible(items, fmt):
+                ins.append({"id": "k%d" % n, "fmt": fmt, "cues": [items, chs("z")]})
+                n += 1
+    # zero-padded decimal and lower-case hexadecimal references
+    for c in (38, 60, 233, 0x4e2d, 65):
+        for sp in ("dec0", "hexlc"):
+            for fmt in ("DFXP", "SAMI"):
+                ins.append({"id": "k%d" % n, "fmt": fmt, "cues": [chs("a ") + [{"t": "ent", "c": c, "sp": sp}] + chs(" b"), chs("z")]})
+                n += 1
+    # a speaker's name that needs escaping inside a WebVTT voice tag
+    for name in ("Tom & Jerry", "Q&A Host", "<unknown>", "A<B", "R&D"):
+        items = [{"t": "voice", "s": [ord(c) for c in name]}] + chs("hello there") + [{"t": "tag", "kind": "v", "open": False}]
+        ins.append({"id": "k%d" % n, "fmt": "WebVTT", "cues": [items, chs("z")]})
+        n += 1
+    # a line break that is the last thing inside an inline element, with more text after the element
+    for fmt, kinds in (("DFXP", ["span", "spanstyle"]), ("SAMI", ["i", "span", "spanstyle"]), ("WebVTT", ["i", "c"])):
+        for kind in kinds:
+            for tail in ("When we think", " then"):
+                items = ([{"t": "tag", "kind": kind, "open": True}] + chs("MAN:") + [{"t": "br"}, {"t": "tag", "kind": kind, "open": False}] + chs(tail))
+                ins.append({"id": "k%d" % n, "fmt": fmt, "cues": [items, chs("z")]})
+                n += 1
+                items = (chs("so ") + [{"t": "tag", "kind": kind, "open": True}] + chs("MAN:") + [{"t": "br"}, {"t": "tag", "kind": kind, "open": False},
+                         {"t": "tag", "kind": kind, "open": True}] + chs(tail) + [{"t": "tag", "kind": kind, "open": False}])
                 ins.append({"id": "k%d" % n, "fmt": fmt, "cues": [items, chs("z")]})
                 n += 1
     # SRT blocks separated by lines that hold white space only (editors that keep trailing blanks)
